@@ -1013,6 +1013,7 @@ impl Observer for Obs {
     fn fatal(&self, kind: &str, detail: String) -> ! {
         match kind {
             "deadlock" => violation("C14", "deadlock", detail),
+            "livelock-forwarding" => violation("C17", "forwarding-wait-never-ends", detail),
             "step-cap" => crate::exec::on_step_cap(detail),
             "replay-diverged" => harness_error(format!("replay diverged: {}", detail)),
             _ => harness_error(format!("{}: {}", kind, detail)),
